@@ -271,7 +271,10 @@ class World:
                 c.write(data)
             elif how == "writeSequence":
                 cut = [data[i * n // parts:(i + 1) * n // parts] for i in range(parts)]
-                c.writeSequence(cut)
+                kind = self.sim.draw_choice(["list", "tuple", "generator"], "iovec")   # any iterable of bytes is a legal argument
+                if kind == "generator":
+                    self.sim.probe("writeSequence_one_shot_iterable")
+                c.writeSequence(cut if kind == "list" else tuple(cut) if kind == "tuple" else (x for x in cut))
             else:
                 c.writeExtended(int(stream[3:]), data)
         self.raise_pending()
